@@ -54,6 +54,8 @@ type Faults struct {
 	// StallAtBoundary: the Write call that covers StallWritesAt accepts nothing at all (the stall begins between two
 	// Write calls - for a batch of frames written one call per frame: exactly on a frame boundary).
 	StallAtBoundary bool
+	// StallMore: further stall points (ascending, beyond StallWritesAt); each lasts one write deadline, like the first.
+	StallMore []int64
 	// FailSetWriteDeadline: every SetWriteDeadline call fails after this many successes (-1 = never).
 	FailSetWriteDeadlineAfter int
 	// ReadChunk > 0: deliver at most that many bytes per Read to the driver.
@@ -89,6 +91,7 @@ type Conn struct {
 	CutOffset      int64 // stream offset at which the cut happened
 	BytesAfterCut  int64 // bytes the conn accepted after it had returned a short write
 	WritesAfterCut int
+	Stalls         int // scripted stalls that have ended and were followed by another one
 	closeOnce      sync.Once
 	OnClose        func()
 }
@@ -211,6 +214,12 @@ func (c *Conn) Write(p []byte) (int, error) {
 					// the peer's window opens again afterwards: whatever the driver writes now is accepted
 					// (and counted as bytes after a short write)
 					c.stallOver = true
+					if len(c.faults.StallMore) > 0 {
+						// the next scripted stall takes over
+						c.faults.StallWritesAt, c.faults.StallMore = c.faults.StallMore[0], c.faults.StallMore[1:]
+						c.stallOver = false
+						c.Stalls++
+					}
 					c.mu.Unlock()
 					return acc, ErrTimeout
 				}
